@@ -65,20 +65,13 @@ func checkGuards(w *World, c *Check, rule, fnKey string, cls ExitClass, specs []
 	}
 	res := map[string][]Edge{}
 	for _, g := range specs {
-		var pass []Edge
-		for _, p := range g.Main {
-			pass = append(pass, fa.MatchGuard(p)...)
-		}
+		pass, all := fa.MatchGuardSet(g.Main, g.Unless)
 		if len(pass) == 0 {
 			c.Fail(rule, fnKey, g.Name, where, g.Desc,
 				"no branch in the function tests this condition (guard deleted, or it compares other operands); conditions present: "+fa.condSummary())
 			continue
 		}
 		res[g.Name] = pass
-		all := append([]Edge{}, pass...)
-		for _, p := range g.Unless {
-			all = append(all, fa.MatchGuard(p)...)
-		}
 		gw := w.Pos(InstrPos(lastInstr(pass[0].From)))
 		if g.RejectForm {
 			bad := ""
@@ -152,17 +145,44 @@ func checkCallsFA(c *Check, rule string, fa *FuncAn, specs []CallSpec) map[strin
 		if min == 0 {
 			min = 1
 		}
-		sites := fa.Calls(substParams(fa.Fn, s.Callee))
+		deep := fa.CallsDeep(substParams(fa.Fn, s.Callee))
 		want := substParams(fa.Fn, s.Want)
-		var good []ssa.CallInstruction
+		var good, sites []ssa.CallInstruction
 		var bad []string
-		for _, ci := range sites {
-			full := fa.RenderCall(ci)
+		for _, dc := range deep {
+			ci := dc.ci
+			sites = append(sites, ci)
+			full := dc.fa.RenderCall(ci)
 			if fullMatch(want, full) {
 				good = append(good, ci)
-			} else {
-				bad = append(bad, fmt.Sprintf("%s: %s", w.Pos(InstrPos(ci)), full))
+				continue
 			}
+			// a call hoisted below the branches that used to make it separately: its arguments are
+			// phis of one merge block. Each incoming edge is one of the former calls: the site
+			// satisfies this spec if one edge's variant matches it, provided every variant matches
+			// some spec of the same callee in this list (no edge makes an unspecified call).
+			if vars := callVariants(dc.fa, ci); len(vars) > 1 {
+				mine, all := false, true
+				for _, v := range vars {
+					if fullMatch(want, v) {
+						mine = true
+					}
+					explained := false
+					for _, s2 := range specs {
+						if s2.Callee == s.Callee && fullMatch(substParams(fa.Fn, s2.Want), v) {
+							explained = true
+						}
+					}
+					if !explained {
+						all = false
+					}
+				}
+				if mine && all {
+					good = append(good, ci)
+					continue
+				}
+			}
+			bad = append(bad, fmt.Sprintf("%s: %s", w.Pos(InstrPos(ci)), full))
 		}
 		res[s.Name] = good
 		where := w.Pos(fa.Fn.Pos())
@@ -365,4 +385,85 @@ func ruleFalseHasError(w *World, c *Check, rule string, fnKeys ...string) {
 			c.Fail(rule, fk, "false-has-error", w.Pos(fn.Pos()), "the verifier has failing exits", "none found")
 		}
 	}
+}
+
+// callVariants: when arguments of the call are (or contain, up to depth 3) phis of one merge block,
+// the renderings of the call with those phis replaced by their operand on each incoming edge.
+func callVariants(fa *FuncAn, ci ssa.CallInstruction) []string {
+	byBlock := map[*ssa.BasicBlock][]*ssa.Phi{}
+	seen := map[ssa.Value]bool{}
+	var walk func(v ssa.Value, depth int)
+	walk = func(v ssa.Value, depth int) {
+		if v == nil || seen[v] || depth > 3 {
+			return
+		}
+		seen[v] = true
+		if phi, ok := v.(*ssa.Phi); ok {
+			if phi.Comment != "rangeindex" {
+				byBlock[phi.Block()] = append(byBlock[phi.Block()], phi)
+			}
+			return
+		}
+		in, ok := v.(ssa.Instruction)
+		if !ok {
+			return
+		}
+		for _, op := range in.Operands(nil) {
+			if op != nil && *op != nil {
+				walk(*op, depth+1)
+			}
+		}
+	}
+	c := ci.Common()
+	for _, a := range c.Args {
+		walk(a, 0)
+	}
+	var blk *ssa.BasicBlock
+	for b, ps := range byBlock {
+		if blk == nil || len(ps) > len(byBlock[blk]) || (len(ps) == len(byBlock[blk]) && b.Index < blk.Index) {
+			blk = b
+		}
+	}
+	if blk == nil || len(blk.Preds) < 2 || len(blk.Preds) > 6 {
+		return nil
+	}
+	if loopHeaderOf(blk) == blk {
+		return nil // loop-carried values are not alternatives of one call
+	}
+	var out []string
+	for k := range blk.Preds {
+		r := NewRenderer(fa.W, fa.Fn)
+		r.subst = fa.R.subst
+		r.inlineDepth = fa.R.inlineDepth
+		r.phiPick = map[*ssa.Phi]int{}
+		for _, p := range byBlock[blk] {
+			r.phiPick[p] = k
+		}
+		// what the edge knows: a parameter found nil on the way is nil in this variant
+		pred := blk.Preds[k]
+		for _, f := range fa.factsOn(&Edge{pred, succIndex(pred, blk)}) {
+			if f.c.Kind != "eq" || !f.holds || !(f.c.L == "nil" || f.c.R == "nil") {
+				continue
+			}
+			other := f.c.L
+			if other == "nil" {
+				other = f.c.R
+			}
+			for _, p := range fa.Fn.Params {
+				if fa.R.R(p) == other {
+					if r.subst == nil || len(r.subst) == len(fa.R.subst) {
+						ns := map[*ssa.Parameter]string{}
+						for k2, v2 := range fa.R.subst {
+							ns[k2] = v2
+						}
+						r.subst = ns
+					}
+					r.subst[p] = "nil"
+				}
+			}
+		}
+		sub := &FuncAn{W: fa.W, Fn: fa.Fn, R: r}
+		out = append(out, sub.RenderCall(ci))
+	}
+	return out
 }
